@@ -201,7 +201,7 @@ Fixpoint sels_okM (fuel : nat) (cov : bool) (C : cfg) (S : schema) (frs : list f
   match fuel with
   | O => false
   | Datatypes.S g =>
-      match flattenM g S frs rt r sels with
+      match flattenM g S frs rt r false sels with
       | Some (fns, ms) =>
           (if top then
              match collect g S frs rt false sels with
@@ -235,7 +235,7 @@ Definition mixin_ok (g : nat) (cov : bool) (C : cfg) (S : schema) (frs : list fr
 
 Lemma sels_okM_S g cov C S frs top nested rt r sels :
   sels_okM (Datatypes.S g) cov C S frs top nested rt r sels =
-  match flattenM g S frs rt r sels with
+  match flattenM g S frs rt r false sels with
   | Some (fns, ms) =>
       (if top then
          match collect g S frs rt false sels with
@@ -252,7 +252,7 @@ Proof. reflexivity. Qed.
 
 Lemma sels_okM_inv g cov C S frs top nested rt r sels :
   sels_okM g cov C S frs top nested rt r sels = true ->
-  exists g' fns ms, g = Datatypes.S g' /\ flattenM g' S frs rt r sels = Some (fns, ms) /\
+  exists g' fns ms, g = Datatypes.S g' /\ flattenM g' S frs rt r false sels = Some (fns, ms) /\
     (top = true -> exists l, collect g' S frs rt false sels = Some l /\ keys_ok C (map n_key l) = true /\
                              (cov = true -> NoDup (map (py_field_name C) (map n_key l)))) /\
     forallb (field_ok (sels_okM g' cov C S frs true true) g' cov S nested rt r) fns = true /\
@@ -260,7 +260,7 @@ Lemma sels_okM_inv g cov C S frs top nested rt r sels :
     reach_ok g' S frs ms = true.
 Proof.
   destruct g as [|g']; [discriminate|]. rewrite sels_okM_S. intro H.
-  destruct (flattenM g' S frs rt r sels) as [[fns ms]|] eqn:Ef; [| discriminate].
+  destruct (flattenM g' S frs rt r false sels) as [[fns ms]|] eqn:Ef; [| discriminate].
   apply andb_true_iff in H as [H H4]. apply andb_true_iff in H as [H H3]. apply andb_true_iff in H as [H1 H2].
   exists g', fns, ms. split; [reflexivity|]. split; [exact Ef|].
   split; [| split; [exact H2 | split; [exact H3 | exact H4]]].
@@ -278,29 +278,29 @@ Proof.
   intros rt r sels H Hns.
   destruct (sels_okM_inv _ _ _ _ _ _ _ _ _ _ H) as [g' [fns [ms [_ [Hfl [Htop _]]]]]].
   destruct (Htop eq_refl) as [l [Hc [Hk Hn]]].
-  destruct (flattenM_both_ex S frs rt _ _ _ _ _ Hfl g' (le_n _)) as [Hres _].
-  pose proof (resolve_no_spread _ _ _ _ _ _ _ Hns Hres) as Hm. simpl in Hm. subst ms.
+  destruct (flattenM_both_ex S frs rt _ _ _ _ _ _ Hfl g' (le_n _)) as [Hres _].
+  pose proof (resolve_no_spread _ _ _ _ _ _ _ _ Hns Hres) as Hm. simpl in Hm. subst ms.
   assert (Hf : flatten g' S frs rt r sels = Some fns) by (apply flatten_M; exact Hfl).
-  pose proof (flatten_collect_det _ _ _ _ _ _ _ _ _ _ Hf Hc) as El. subst l.
+  pose proof (flatten_collect_det _ _ _ _ _ _ _ _ _ Hf Hc) as El. subst l.
   rewrite map_map in Hk, Hn. exists g', fns. split; [exact Hf|]. split; [exact Hk|].
   intro Hcov. specialize (Hn Hcov). rewrite map_map in Hn. exact Hn.
 Qed.
 
 Lemma flattenM_typename S frs rt g r sels fns ms :
-  has_typename sels = true -> flattenM g S frs rt r sels = Some (fns, ms) ->
+  has_typename sels = true -> flattenM g S frs rt r false sels = Some (fns, ms) ->
   existsb (fun f0 => String.eqb (fn_name f0) "__typename") fns = true.
 Proof.
   unfold has_typename. intros H Hf. apply existsb_exists in H. destruct H as [s [Hs Hp]].
   destruct s as [[al|] n [|] mx [sub|] | |]; try discriminate Hp.
   apply String.eqb_eq in Hp. subst n.
   apply existsb_exists. exists (fnode_of None "__typename" false mx None).
-  split; [eapply flattenM_field_in; eauto | reflexivity].
+  split; [apply (flattenM_field_in _ _ _ _ _ _ _ _ _ _ _ _ _ _ Hf Hs) | reflexivity].
 Qed.
 
 (* one level of the generator on a selection set of the mixin sub-language *)
 Lemma level_invM C S frs fuel pub cn rt r sels at_ tv out pub' g fns ms :
   parse_type_def (Datatypes.S fuel) C S frs pub cn r sels at_ [] tv = Ok (out, pub', false) ->
-  flattenM g S frs rt r sels = Some (fns, ms) ->
+  flattenM g S frs rt r false sels = Some (fns, ms) ->
   (at_ = true -> has_typename sels = true) ->
   exists f2 pfl extra kept,
     fuel = Datatypes.S f2 /\
@@ -311,8 +311,8 @@ Proof.
   intros H Hfl Hat. simpl in H. apply body_inv in H.
   destruct H as [[_ [_ [_ H]]] | [M [fields0 [mixins [pfl [extra [Hres [Hrun [kept [Hk Hout]]]]]]]]]];
     [discriminate|].
-  destruct (resolve_ok_fuel _ _ _ _ _ _ Hres) as [f2 Ef]. subst fuel.
-  pose proof (flattenM_resolve_det _ _ _ _ _ _ _ _ _ Hfl Hres) as E. inversion E; subst fields0 mixins.
+  destruct (resolve_ok_fuel _ _ _ _ _ _ _ Hres) as [f2 Ef]. subst fuel.
+  pose proof (flattenM_resolve_det _ _ _ _ _ _ _ _ _ _ Hfl Hres) as E. inversion E; subst fields0 mixins.
   assert (Hadd : add_typename_field at_ fns = fns).
   { unfold add_typename_field. destruct at_; [| reflexivity].
     rewrite (flattenM_typename _ _ _ _ _ _ _ _ (Hat eq_refl) Hfl). reflexivity. }
@@ -366,7 +366,7 @@ Section Mix.
     destruct fuel as [|fuel']; [discriminate Hp|].
     destruct (level_invM _ _ _ _ _ _ _ _ _ _ _ _ _ _ _ _ Hp Hfl Hat) as [f2 [pfl [extra [kept [Ef [Hrun [Hkept [_ Hout]]]]]]]].
     destruct Hamb as [HkN [HkvN HspecN]].
-    destruct (flattenM_collect_mix _ _ _ _ _ _ _ _ _ _ Hfl Hcol) as [Hown Hmixn].
+    destruct (flattenM_collect_mix _ _ _ _ _ _ _ _ _ _ _ Hfl Hcol) as [Hown Hmixn].
     assert (Hc0 : In {| c_name := cn; c_bases := class_bases ms kept []; c_fields := pfl |} out)
       by (rewrite Hout; left; reflexivity).
     destruct (Htab _ Hc0) as [Hl Hnb]. simpl in Hl, Hnb.
